@@ -35,7 +35,14 @@ LAWS = ["eq-total", "reflexive", "symmetric", "complement", "eq-iff-same-literal
         "eq-componentwise", "lt-lexicographic", "add-componentwise", "sub-componentwise", "mul-componentwise",
         "div-componentwise", "eq-transitive", "lt-transitive", "lt-respects-eq", "lt-irreflexive",
         "neg-involutive", "neg-is-additive-inverse", "neg-componentwise", "div-by-number-componentwise",
-        "symmetric-across-provenance"]
+        "symmetric-across-provenance",
+        "step-independent-of-history", "step-equals-application-on-fresh-values", "history-bindings-evaluate"]
+# history templates of SyltComposite!HistTemplates and the shapes of SyltComposite!HistTable: each must be judged
+TEMPLATES = ["eq-left", "eq-repeat", "eq-flip", "eq-right", "eq-inside", "eq-mixed", "ord-left", "ord-right", "le-left", "ord-flip",
+             "ord-repeat", "ord-then-eq", "ord-inside", "add-repeat", "add-left", "arith-left", "arith-right", "sub-flip", "mul-div",
+             "neg-repeat", "arith-inside"]
+HIST_SHAPES = ["list(int)", "tuple(int,int)", "blob(B)", "enum(E)", "tuple(list(int),int)", "list(tuple(int))", "list(list(int))",
+               "tuple(tuple(int,int),int)", "tuple(str,int)", "blob(C)", "list(blob(A))", "str", "int"]
 EQ = ("==", "!=")
 ORD = ("<", "<=", ">", ">=")
 
@@ -49,7 +56,11 @@ REQUIRED = ([(op, k) for op in EQ for k in ("tuple", "list", "blob", "enum")]
 MUTATIONS = [("lt-first-only", "<", "tuple"), ("le-is-lt", "<=", "tuple"), ("tuple-eq-first-only", "==", "tuple"),
              ("list-eq-ignores-length", "==", "list"), ("blob-eq-ignores-field", "==", "blob"),
              ("variant-eq-tag-only", "==", "enum"), ("sub-swapped", "-", "tuple"), ("mul-first-only", "*", "tuple"),
-             ("div-number-first-only", "/number", "tuple"), ("neg-identity", "neg", "tuple"), ("concat-swapped", "+", "str")]
+             ("div-number-first-only", "/number", "tuple"), ("neg-identity", "neg", "tuple"), ("concat-swapped", "+", "str"),
+             # stateful runtimes: only a HISTORY (several applications over the same objects) can notice them
+             ("list-eq-sticky-seen", "==", "list", "hist:"), ("tuple-lt-memo", "<", "tuple", "hist:"),
+             ("tuple-add-in-place", "+", "tuple", "hist:"), ("blob-eq-caches-left", "==", "blob", "hist:"),
+             ("variant-eq-sticky", "==", "enum", "hist:")]
 SPEC_FAULTS = ["lt-first-only", "eq-ignores-last", "sub-swapped"]
 
 
@@ -130,6 +141,18 @@ def universe(wd, name, env, timeout):
     return r, decls[0], recs
 
 
+def mk_batch(c, decls):
+    b = {"id": c["id"], "shape": c["shape"], "decls": decls, "items": c["items"]}
+    if c.get("binds"):
+        b["binds"] = c["binds"]            # a history batch: binds[h-1] are the bindings of history h, items carry h and k
+    return b
+
+
+def history_of(b, it):
+    """the history of a history item up to and including its step: what has to be re-run to see the item again"""
+    return {"binds": b["binds"][it["h"] - 1], "steps": [x for x in b["items"] if x["h"] == it["h"] and x["k"] <= it["k"]]}
+
+
 def replay(wd, name, batches, patch=None):
     bf = os.path.join(wd, name + "-batches.ndjson")
     rf = os.path.join(wd, name + "-results.ndjson")
@@ -165,6 +188,8 @@ def judge(batches, results, verdicts, stats, decls):
             cs = stats["cells"].setdefault("%s %s" % c, {"judged": 0, "ok": 0, "not_exercisable": 0, "true": 0, "false": 0})
             if v == "tool":
                 vlib.tool_error("minilua does not support something the program used: %s" % json.dumps(d)[:600])
+            if v == "not_reached":
+                continue                   # a history stopped at an earlier step, which is the one reported
             if v in ("not_exercisable", "panic"):
                 cs["not_exercisable"] += 1
                 stats["rejected_item"].setdefault(c, (it, b["id"]))
@@ -176,9 +201,12 @@ def judge(batches, results, verdicts, stats, decls):
             cs["judged"] += 1
             if it["want"].get("k") == "bool":
                 cs["true" if it["want"]["v"] else "false"] += 1
-            stats["judged_keys"].add(vlib.sha([it["e"], it["want"]]))
+            stats["judged_keys"].add(vlib.sha([it["e"], it["want"]] + ([b["id"], it["h"], it["k"]] if "binds" in b else [])))
             if nesting(it["shape"]) >= 2:
                 stats["nested_judged"] += 1
+            if it["form"].startswith("hist:"):
+                stats["hist_templates"][it["form"].split(":")[1]] = stats["hist_templates"].get(it["form"].split(":")[1], 0) + 1
+                stats["hist_shapes"][b["shape"]] = stats["hist_shapes"].get(b["shape"], 0) + 1
             if v == "ok":
                 cs["ok"] += 1
                 continue
@@ -188,11 +216,15 @@ def judge(batches, results, verdicts, stats, decls):
             sig = signature(it, fc)
             stats["signatures"][sig] = stats["signatures"].get(sig, 0) + 1
             src = (d or {}).get("source", "")
+            where = program_line(src)
+            if "binds" in b:
+                pl = [l.strip() for l in src.splitlines() if l.strip().startswith(("print(", "v1:", "v2:", "v3:"))]
+                where = "step %d of the history  %s" % (it["k"], " ; ".join(pl))
             what = "%s: the specification says %s, the compiled program %s" % (
-                program_line(src) or "%s on %s" % (it["op"], it["shape"]), show(it["want"]),
+                where or "%s on %s" % (it["op"], it["shape"]), show(it["want"]),
                 ("printed %s" % ", ".join((d or {}).get("got", ["?"])[:3])) if v.startswith("mismatch") else
                 ("stopped with %s" % (d or {}).get("status", v)))
-            verdicts.add(sig, what, {"batch": b["id"], "decls": decls, "item": it,
+            verdicts.add(sig, what, {"batch": b["id"], "decls": decls, "item": it, **({"hist": history_of(b, it)} if "binds" in b else {}),
                                      "observed": {k: (d or {}).get(k) for k in ("verdict", "want", "got", "status", "detail", "source")}})
 
 
@@ -227,8 +259,14 @@ def control_expectations(wd, batches, results, decls, per_cell=6, skip=()):
     taken, picked = {}, []
     order = list(range(len(batches)))
     off = vlib.seed() % max(1, len(order))
+    hist_pick = {}
     for bi in order[off:] + order[:off]:
         b, r = batches[bi], results[bi]
+        if "binds" in b:
+            # a history batch stays whole; one step's expectation is corrupted (two batches per shape)
+            if all(v == "ok" for v in r["verdicts"]) and len(hist_pick.setdefault(b["shape"], [])) < 2:
+                hist_pick[b["shape"]].append(bi)
+            continue
         for it, v in zip(b["items"], r["verdicts"]):
             c = cell(it)
             if v == "ok" and taken.get(c, 0) < per_cell:
@@ -242,6 +280,21 @@ def control_expectations(wd, batches, results, decls, per_cell=6, skip=()):
     nb = [{"id": {"kind": "control", "t": 0, "c": i}, "decls": decls, "items": picked[i:i + 12]} for i in range(0, len(picked), 12)]
     res, _ = replay(wd, "control", nb)
     accepted = [it for b, r in zip(nb, res) for it, v in zip(b["items"], r["verdicts"]) if v != "mismatch"]
+    hb, at = [], []
+    for bis in hist_pick.values():
+        for bi in bis:
+            d = json.loads(json.dumps(batches[bi]))
+            j = (vlib.seed() + bi) % len(d["items"])
+            d["items"][j]["want"] = corrupt(d["items"][j]["want"])
+            hb.append(d)
+            at.append(j)
+    if len(hb) < len(HIST_SHAPES):
+        vlib.tool_error("negative control: only %d history batches to corrupt" % len(hb))
+    hres, _ = replay(wd, "control-hist", hb)
+    for d, r, j in zip(hb, hres, at):
+        if r["verdicts"][j] != "mismatch" or any(v != "ok" for k, v in enumerate(r["verdicts"]) if k != j):
+            accepted.append(d["items"][j])
+    picked = picked + [d["items"][j] for d, j in zip(hb, at)]
     if accepted:
         vlib.tool_error("negative control: %d of %d corrupted expectations were not reported as mismatches, e.g. %s on %s" % (
             len(accepted), len(picked), accepted[0]["op"], accepted[0]["shape"]))
@@ -254,26 +307,31 @@ def control_mutations(wd, batches, results, skip=()):
     order = list(range(len(batches)))
     off = (vlib.seed() * 7) % max(1, len(order))
     order = order[off:] + order[:off]
-    for name, op, kind in MUTATIONS:
+    for name, op, kind, *form in MUTATIONS:
+        form = form[0] if form else ""
+
+        def target(it):
+            return cell(it) == (op, kind) and it["form"].startswith(form)
         if os.environ.get("C19_PREAMBLE_PATCH") == name or (op, kind) in skip:
             continue                       # demonstration run: this mutation is already in the results that are being judged
         by_shape = {}
         for bi in order:
             b, r = batches[bi], results[bi]
-            hit = [it["shape"] for it, v in zip(b["items"], r["verdicts"]) if cell(it) == (op, kind) and v == "ok"]
-            if hit and len(by_shape.setdefault(hit[0], [])) < 2:      # two batches of every shape that has the cell
+            hit = [it["shape"] for it, v in zip(b["items"], r["verdicts"]) if target(it) and v == "ok"]
+            if hit and len(by_shape.setdefault(hit[0], [])) < (40 if form else 2):     # some batches of every shape that has the cell
                 by_shape[hit[0]].append(bi)
         sel = [bi for bis in by_shape.values() for bi in bis]
         if not sel:
-            vlib.tool_error("negative control: no batch exercises %s on %s" % (op, kind))
+            vlib.tool_error("negative control: no batch exercises %s on %s (%s)" % (op, kind, form or "any form"))
         res, _ = replay(wd, "mut-" + name, [batches[bi] for bi in sel], patch=name)
         n = 0
         for bi, r in zip(sel, res):
             for it, v0, v in zip(batches[bi]["items"], results[bi]["verdicts"], r["verdicts"]):
-                if v0 == "ok" and v in FAILURES and cell(it) == (op, kind):
+                if v0 == "ok" and v in FAILURES and target(it):
                     n += 1
         if n == 0:
-            vlib.tool_error("negative control: the emitted-Lua mutation %s was not noticed on `%s` of %s values" % (name, op, kind))
+            vlib.tool_error("negative control: the emitted-Lua mutation %s was not noticed on `%s` of %s values%s" % (
+                name, op, kind, " in the histories" if form else ""))
         caught[name] = n
     return caught
 
@@ -316,7 +374,7 @@ def guards(tier, stats, recs_by_universe, laws_checked, reported=()):
     for recs in recs_by_universe.values():
         for c in recs:
             kinds[c["id"]["kind"]] = kinds.get(c["id"]["kind"], 0) + 1
-    need = ["pairs", "neg", "divn", "trans", "prov", "alias"] + (["diag"] if tier == "quick" else ["deep"])
+    need = ["pairs", "neg", "divn", "trans", "prov", "alias", "hist"] + (["diag"] if tier == "quick" else ["deep"])
     for k in need:
         if kinds.get(k, 0) == 0:
             vlib.tool_error("vacuity: no job of kind %s ran in TLC" % k)
@@ -333,6 +391,14 @@ def guards(tier, stats, recs_by_universe, laws_checked, reported=()):
                 op, kind, cs["judged"], cs["not_exercisable"], json.dumps(list(stats["not_exercisable_examples"].values())[:1])[:800]))
         if (op in EQ or op in ORD) and (cs["true"] == 0 or cs["false"] == 0):
             vlib.tool_error("vacuity: `%s` on %s values has only one expected outcome (%d true, %d false)" % (op, kind, cs["true"], cs["false"]))
+    for t in TEMPLATES:
+        if stats["hist_templates"].get(t, 0) < 20:
+            vlib.tool_error("vacuity: history template %s was judged on %d steps only" % (t, stats["hist_templates"].get(t, 0)))
+    for sh in HIST_SHAPES:
+        if stats["hist_shapes"].get(sh, 0) < 20:
+            vlib.tool_error("vacuity: histories over %s values were judged on %d steps only" % (sh, stats["hist_shapes"].get(sh, 0)))
+    if stats["verdicts"].get("not_reached", 0) > 0.01 * sum(stats["verdicts"].values()):
+        vlib.tool_error("vacuity: %d history steps were not reached" % stats["verdicts"]["not_reached"])
     total = sum(stats["verdicts"].values())
     ne = stats["verdicts"].get("not_exercisable", 0) + stats["verdicts"].get("panic", 0)
     if total < (20000 if tier == "quick" else 100000):
@@ -347,7 +413,7 @@ def guards(tier, stats, recs_by_universe, laws_checked, reported=()):
 
 def new_stats():
     return {"programs": 0, "paths": {}, "verdicts": {}, "cells": {}, "signatures": {}, "not_exercisable_examples": {},
-            "judged_keys": set(), "nested_judged": 0, "dropped": 0, "rejected_item": {}}
+            "judged_keys": set(), "nested_judged": 0, "dropped": 0, "rejected_item": {}, "hist_templates": {}, "hist_shapes": {}}
 
 
 # --------------------------------------------------------------------------- entry
@@ -362,9 +428,12 @@ def run(ctx):
 
     if ctx.replay:
         rp = json.load(open(ctx.replay))["replay"]
-        batches = [{"id": rp["batch"], "decls": rp["decls"], "items": [rp["item"]]}]
+        batches = [{"id": rp["batch"], "shape": rp["item"]["shape"], "decls": rp["decls"], "items": [rp["item"]]}]
+        if rp.get("hist"):                 # the history up to the reported step, as history number 1
+            steps = [dict(x, h=1) for x in rp["hist"]["steps"]]
+            batches[0].update(items=steps, binds=[rp["hist"]["binds"]])
         res, bf = replay(wd, "replay", batches)
-        print(vlib.harness("c19", ["print", bf, 0, 0]).stdout)
+        print(vlib.harness("c19", ["print", bf, 0]).stdout)
         for d in res[0]["details"]:
             print("verdict %s  want %r  got %r  status %s" % (d.get("verdict"), d.get("want"), d.get("got"), d.get("status")))
         if not res[0]["details"]:
@@ -399,7 +468,7 @@ def run(ctx):
             stats["dropped"] += c["dropped"]
             for l in c["laws"]:
                 laws_checked[l] = laws_checked.get(l, 0) + 1
-        batches = [{"id": c["id"], "decls": decls, "items": c["items"]} for c in recs if c["items"]]
+        batches = [mk_batch(c, decls) for c in recs if c["items"]]
         res, _ = replay(wd, name, batches)
         judge(batches, res, verdicts, stats, decls)
         universes[name] = {"jobs": len(recs), "batches": len(batches), "applications": sum(len(b["items"]) for b in batches),
@@ -435,7 +504,8 @@ def run(ctx):
            verdict_counts=stats["verdicts"], batch_paths=stats["paths"], cells=stats["cells"],
            not_exercisable=stats["verdicts"].get("not_exercisable", 0) + stats["verdicts"].get("panic", 0),
            not_exercisable_examples=stats["not_exercisable_examples"], outside_numeric_model=stats["dropped"],
-           nested_applications_judged=stats["nested_judged"], violation_signatures=stats["signatures"],
+           nested_applications_judged=stats["nested_judged"],
+           history_steps_per_template=stats["hist_templates"], history_steps_per_shape=stats["hist_shapes"], violation_signatures=stats["signatures"],
            negative_controls_rejected=n_corrupt + len(caught) + len(faults),
            negative_controls={"corrupted_expectations_rejected": n_corrupt, "emitted_lua_mutations_noticed": caught,
                               "specification_faults_rejected_by_tlc": faults},
@@ -443,7 +513,9 @@ def run(ctx):
            rule="value expressions of the 32 types of SyltComposite!TypeTable (scalars, tuples, lists, blobs, enum values, nesting depth <= 2, "
                 "leaves from 2-4 ints / floats / strings), every ordered pair of equal type (quick: every s-th pair for the larger types, offset "
                 "by the seed, plus the whole diagonal; thorough: all pairs, plus sampled pairs of 7 depth-3 types), every operator the property names "
-                "for the type, unary minus, tuple / number, 38 mixed-provenance pairs and v op v on one object; an application is non-trivial when "
+                "for the type, unary minus, tuple / number, 38 mixed-provenance pairs and v op v on one object; HISTORIES: every triple (quick: every s-th) "
+                "of values of 13 types bound to three variables and each of the 21 templates of 3 applications over those variables (same object left, "
+                "right, repeated, inside a fresh tuple / list), expected values threaded through one state; an application is non-trivial when "
                 "the compiler accepted it and the program ran, distinct = distinct (expression, expected value)",
            samples=samples)
     ev.assume("minilua stands in for Lua 5.3 (no Lua interpreter exists in the sandbox)",
